@@ -143,6 +143,110 @@ func runC19(res *Result, d *Driver, tier string, seed uint64) {
 		b.Close()
 	}
 
+	// ---- a receiver that keeps what it received: several messages with descriptors are received one after the other on
+	// one socket and looked at only afterwards; every kept message must still carry exactly the descriptors of its sender
+	// (a Msg is a value handed to the caller; a later receive must not change an earlier one) ----
+	{
+		nk := 25
+		if tier == "thorough" {
+			nk = 400
+		}
+		var files []*os.File
+		var ids []syscall.Stat_t
+		for i := 0; i < 8; i++ {
+			f, err := os.CreateTemp("", "verif-c19-keep-")
+			if err != nil {
+				fatal("tmp: %v", err)
+			}
+			defer os.Remove(f.Name())
+			defer f.Close()
+			var st syscall.Stat_t
+			syscall.Fstat(int(f.Fd()), &st)
+			files = append(files, f)
+			ids = append(ids, st)
+		}
+		for it := 0; it < nk; it++ {
+			a, b, err := unixsocket.NewSocketPair()
+			if err != nil {
+				fatal("socketpair: %v", err)
+			}
+			time.Sleep(time.Millisecond)
+			base := fdCount(os.Getpid())
+			nm := 2 + rng.Intn(4)
+			var sentIdx [][]int
+			var kept []unixsocket.Msg
+			var desc []string
+			bad := ""
+			for m := 0; m < nm; m++ {
+				nf := rng.Intn(4) // some messages without descriptors in between
+				var idx, fds []int
+				for j := 0; j < nf; j++ {
+					k := rng.Intn(len(files))
+					idx = append(idx, k)
+					fds = append(fds, int(files[k].Fd()))
+				}
+				if err := a.SendMsg([]byte{byte('a' + m)}, unixsocket.Msg{Fds: fds}); err != nil {
+					bad = "send: " + err.Error()
+					break
+				}
+				sentIdx = append(sentIdx, idx)
+				desc = append(desc, fmt.Sprintf("msg%d(files %v)", m, idx))
+				// half of the histories receive right after each send, the others after all sends
+				if it%2 == 0 {
+					buf := make([]byte, 16)
+					b.SetReadDeadline(time.Now().Add(time.Second))
+					_, msg, rerr := b.RecvMsg(buf)
+					if rerr != nil {
+						bad = "recv: " + rerr.Error()
+						break
+					}
+					kept = append(kept, msg)
+				}
+			}
+			for m := len(kept); m < len(sentIdx) && bad == ""; m++ {
+				buf := make([]byte, 16)
+				b.SetReadDeadline(time.Now().Add(time.Second))
+				_, msg, rerr := b.RecvMsg(buf)
+				if rerr != nil {
+					bad = "recv: " + rerr.Error()
+					break
+				}
+				kept = append(kept, msg)
+			}
+			// only now look at what was received
+			seen := map[int]bool{}
+			for m, msg := range kept {
+				if len(msg.Fds) != len(sentIdx[m]) && bad == "" {
+					bad = fmt.Sprintf("message %d kept with %d descriptors, sent with %d", m, len(msg.Fds), len(sentIdx[m]))
+				}
+				for j, fd := range msg.Fds {
+					var st syscall.Stat_t
+					if err := syscall.Fstat(fd, &st); err != nil && bad == "" {
+						bad = fmt.Sprintf("message %d descriptor %d (number %d): %v", m, j, fd, err)
+					} else if j < len(sentIdx[m]) && (st.Dev != ids[sentIdx[m][j]].Dev || st.Ino != ids[sentIdx[m][j]].Ino) && bad == "" {
+						bad = fmt.Sprintf("message %d descriptor %d (number %d) is not file %d its sender attached", m, j, fd, sentIdx[m][j])
+					}
+					if seen[fd] && bad == "" {
+						bad = fmt.Sprintf("descriptor number %d appears in two kept messages", fd)
+					}
+					seen[fd] = true
+				}
+			}
+			for fd := range seen {
+				syscall.Close(fd)
+			}
+			res.Case("keep "+strings.Join(desc, ";"), true, "kept-messages")
+			if bad == "" && !settle(func() bool { return fdCount(os.Getpid()) == base }) && fdCount(os.Getpid()) > base {
+				bad = fmt.Sprintf("after closing every descriptor of every kept message the process has %d descriptors, %d before", fdCount(os.Getpid()), base)
+			}
+			if bad != "" {
+				res.Mismatch(Mismatch{Kind: "oracle", What: "messages kept by the receiver and inspected after later receives: each carries exactly the descriptors attached by its sender, nothing is leaked (C19_whole_or_rejected / C19_no_fd_leak)", Input: strings.Join(desc, "; ") + map[bool]string{true: " [receive after each send]", false: " [receive after all sends]"}[it%2 == 0], Impl: bad, Oracle: "violates"})
+			}
+			a.Close()
+			b.Close()
+		}
+	}
+
 	// ---- the receiving process cannot install all descriptors (descriptor table full): the kernel hands over a
 	// prefix and flags the control data as cut; the message must be rejected, never delivered with fewer descriptors ----
 	{
@@ -342,9 +446,12 @@ func runC19(res *Result, d *Driver, tier string, seed uint64) {
 	}
 
 	// ---- gob-framed layer ----
-	ng := 40
+	// both message types of the protocol (command, reply) on one socket, first use of each type at every
+	// position, payloads around the 32 KiB cap, receives interleaved with sends (several messages in flight),
+	// a receive with nothing in flight; every history also goes through Model/Gob.lean (driver `c19.gob`)
+	ng := 60
 	if tier == "thorough" {
-		ng = 1500
+		ng = 2000
 	}
 	for it := 0; it < ng; it++ {
 		a, b, err := unixsocket.NewSocketPair()
@@ -352,12 +459,59 @@ func runC19(res *Result, d *Driver, tier string, seed uint64) {
 			fatal("socketpair: %v", err)
 		}
 		sa, sb := container.VerifNewSocket(a), container.VerifNewSocket(b)
-		firstOversize := rng.Chance(25) // an oversize message as the very first use of the command type
-		ok := true
-		poisoned := false // an unsent oversize message was the first use of the type on this encoder
-		sentOnce := false
-		var trace []string
-		for step := 0; step < 2+rng.Intn(6) && ok; step++ {
+		firstOversize := rng.Chance(25) // an oversize message as the very first use of a type
+		type flight struct {
+			kind, total int
+			cmdKind     int
+			paths       []string
+		}
+		var inflight []flight
+		var trace, toks, impl []string
+		failedWhat := ""
+		nsteps := 2 + rng.Intn(8)
+		for step := 0; step < nsteps; step++ {
+			doRecv := rng.Chance(35)
+			if step == nsteps-1 && len(inflight) > 0 {
+				doRecv = true
+			}
+			if doRecv {
+				toks = append(toks, "r")
+				if len(inflight) == 0 {
+					// nothing in flight: the receive must fail (deadline), not invent a message
+					b.SetReadDeadline(time.Now().Add(30 * time.Millisecond))
+					_, _, _, rerr := sb.RecvCmd()
+					trace = append(trace, "recv(nothing in flight)")
+					if rerr == nil {
+						impl = append(impl, "G?")
+						res.Mismatch(Mismatch{Kind: "oracle", What: "gob layer delivers a message that was never sent", Input: strings.Join(trace, "; "), Impl: "a message", Oracle: "violates"})
+					} else {
+						impl = append(impl, "0")
+					}
+					continue
+				}
+				f := inflight[0]
+				inflight = inflight[1:]
+				b.SetReadDeadline(time.Now().Add(2 * time.Second))
+				var rerr error
+				var got []string
+				gotKind := f.cmdKind
+				if f.kind == 0 {
+					gotKind, got, _, rerr = sb.RecvCmd()
+				} else {
+					got, _, rerr = sb.RecvReply()
+				}
+				trace = append(trace, fmt.Sprintf("recv(type %d)", f.kind))
+				intact := rerr == nil && gotKind == f.cmdKind && strings.Join(got, ",") == strings.Join(f.paths, ",")
+				if intact {
+					impl = append(impl, fmt.Sprintf("G%d.%d", f.kind, f.total))
+				} else {
+					impl = append(impl, "E")
+					failedWhat = fmt.Sprintf("err=%v kind=%d items=%d", rerr, gotKind, len(got))
+					break // the decoder's state after a failed decode is not compared
+				}
+				continue
+			}
+			kind := rng.Intn(2)
 			np := rng.Intn(4)
 			plen := []int{1, 10, 100, 8000, 11000, 40000}[rng.Intn(6)]
 			if step == 0 && firstOversize {
@@ -367,36 +521,52 @@ func runC19(res *Result, d *Driver, tier string, seed uint64) {
 			for i := 0; i < np; i++ {
 				paths = append(paths, strings.Repeat("p", plen))
 			}
-			kind := 1 + rng.Intn(9)
-			serr := sa.SendCmd(kind, paths, nil)
-			total := 0
-			for _, p := range paths {
-				total += len(p)
+			total := np * plen
+			cmdKind := 1 + rng.Intn(9)
+			var serr error
+			if kind == 0 {
+				serr = sa.SendCmd(cmdKind, paths, nil)
+			} else {
+				serr = sa.SendReply(paths, nil)
 			}
-			trace = append(trace, fmt.Sprintf("cmd(kind %d, %d paths of %d)", kind, np, plen))
+			toks = append(toks, fmt.Sprintf("s%d.%d", kind, total))
+			trace = append(trace, fmt.Sprintf("send(type %d, %d strings of %d)", kind, np, plen))
 			if serr != nil {
+				impl = append(impl, "X")
 				if total < container.VerifBufferSize-2000 {
 					res.Mismatch(Mismatch{Kind: "oracle", What: "gob layer rejects a message that fits", Input: strings.Join(trace, "; "), Impl: serr.Error(), Oracle: "violates"})
 				}
-				if !sentOnce {
-					poisoned = true
-				}
 				continue // not sent: nothing to receive
 			}
-			sentOnce = true
-			b.SetReadDeadline(time.Now().Add(500 * time.Millisecond))
-			k2, p2, _, rerr := sb.RecvCmd()
-			if rerr != nil || k2 != kind || strings.Join(p2, ",") != strings.Join(paths, ",") {
-				key := ""
-				if poisoned {
-					key = "gob-unsent-oversize-first-use"
-				}
-				res.Mismatch(Mismatch{Kind: "oracle", What: "gob-framed message not delivered intact after an unsent oversize first use of its type (known finding) / otherwise a violation", Input: strings.Join(trace, "; "),
-					Impl: fmt.Sprintf("err=%v kind=%d paths=%d", rerr, k2, len(p2)), Oracle: "violates", Key: key})
-				ok = false
+			if total > container.VerifBufferSize {
+				res.Mismatch(Mismatch{Kind: "oracle", What: "gob layer sends a message larger than its cap (the receiver's buffer cannot hold it)", Input: strings.Join(trace, "; "), Impl: "sent", Oracle: "violates"})
 			}
+			impl = append(impl, "S")
+			inflight = append(inflight, flight{kind, total, cmdKind, paths})
 		}
-		res.Case(fmt.Sprintf("gob %v %d", trace, it), true, map[bool]string{true: "gob-first-oversize", false: "gob"}[firstOversize])
+		// the same history through the model
+		want := d.Ask("c19.gob " + strings.Join(toks, " "))
+		have := strings.Join(impl, " ")
+		wantF := strings.Fields(want)
+		if len(wantF) > len(impl) { // the real history stopped at a failed receive
+			wantF = wantF[:len(impl)]
+		}
+		wantCut := strings.Join(wantF, " ")
+		switch {
+		case strings.TrimSpace(wantCut) != strings.TrimSpace(have):
+			// the code and the model disagree; a message that was accepted and then not delivered intact violates C19 outright
+			oracle := "unknown"
+			if failedWhat != "" {
+				oracle = "violates"
+			}
+			res.Mismatch(Mismatch{Kind: "model", What: "gob-framed layer: outcome of a history differs from Model/Gob.lean (an accepted message not delivered intact, or delivered where the model loses it)", Input: strings.Join(trace, "; "), Impl: have + " " + failedWhat, Model: want, Oracle: oracle})
+		case failedWhat != "":
+			// code and model agree that this message is lost: the recorded finding (an unsent oversize message was the first
+			// use of a type descriptor on this encoder), and only that
+			res.Mismatch(Mismatch{Kind: "oracle", What: "gob-framed message not delivered intact after an unsent oversize first use of a type descriptor (the model predicts exactly this loss)", Input: strings.Join(trace, "; "),
+				Impl: failedWhat, Model: want, Oracle: "violates", Key: "gob-unsent-oversize-first-use"})
+		}
+		res.Case(fmt.Sprintf("gob %v", toks), true, map[bool]string{true: "gob-first-oversize", false: "gob"}[firstOversize])
 		a.Close()
 		b.Close()
 	}
